@@ -178,19 +178,28 @@ def main(argv=None):
         if f.get("fn") and f.get("args") is not None:
             concrete.append({"fn": f["fn"], "P": f.get("P", {}), "args": f["args"],
                              "name": "regression:" + f.get("what", "")[:60]})
+        elif f.get("fn") and f.get("kind") == "direct" and f.get("ce") is not None:
+            # counterexample of a direct (solver) obligation: replayed through the harness's replay_<fn>
+            concrete.append({"fn": f["fn"], "P": f.get("P", {}), "args": None, "kind": "direct", "ce": f["ce"],
+                             "name": "regression:" + f.get("what", "")[:60]})
     n_concrete = 0
     from engine import replay as replay_mod
     for c in concrete:
         rec = {"module": modname, "fn": c["fn"], "P": c.get("P", {}), "args": c["args"], "name": c.get("name", "selftest"),
                "open_tags": [f["tag"] for f in open_known if f.get("tag")]}
+        if c.get("kind") == "direct":
+            rec.update(kind="direct", ce=c["ce"])
         n_concrete += 1
         try:
             ok, ce = replay_mod.replay(rec)
         except Exception as e:  # noqa: BLE001
             ok, ce = False, {"exc": repr(e)}
         if not ok:
-            rec["ce"] = ce
-            res = dict(rec, kind="crosshair", ce={"args": rec["args"], **(ce or {})})
+            if rec.get("kind") == "direct":
+                res, ce = dict(rec), rec["ce"]
+            else:
+                rec["ce"] = ce
+                res = dict(rec, kind="crosshair", ce={"args": rec["args"], **(ce or {})})
             hit = next((f for f in open_known if matches_known(f, res)), None)
             if hit:
                 known_hits.append(hit)
